@@ -110,6 +110,20 @@ def limb_carry_pair(rng, s, n):
         a = -a
     return clip(s, n, a), clip(s, n, b)
 
+def limb_carry_square(rng, s, n):
+    """one operand x = hi * 2^(n/2) + lo whose SQUARE sits at the carry boundary of the four-limb product: the doubled cross term
+    2 * hi * lo lands within the high half of lo^2 below 2^(n-1) (signed) / 2^n (unsigned): reached by powi / x * x on 128-bit types"""
+    h = n // 2
+    H = 1 << h
+    top = 1 << (n - 1 if s else n)
+    hi_ = rng.randrange(top >> (h + 1), top >> h) if rng.random() < 0.7 else (top >> (h + 1))
+    lo_ = min(H - 1, (top - 1 - rng.choice([0, 0, 1, H >> 1, rng.randrange(H)])) // (2 * hi_))
+    lo_ = max(0, lo_ + rng.choice([0, 0, 0, -1, 1]))
+    x = hi_ * H + min(lo_, H - 1)
+    if s and rng.random() < 0.4:
+        x = -x
+    return clip(s, n, x)
+
 def mul_pairs(rng, s, n, f, E, count):
     """operand pairs whose exact product is near the representable boundary, plus generic ones"""
     lo, hi = rng_range(s, n)
@@ -118,6 +132,9 @@ def mul_pairs(rng, s, n, f, E, count):
         r = rng.random()
         if n == 128 and r < 0.2:
             out.append(limb_carry_pair(rng, s, n))
+        elif n == 128 and r < 0.24:
+            x = limb_carry_square(rng, s, n)
+            out.append((x, x))
         elif r < 0.35:
             # product within a few ulps of (MAX+1)*2^f or MIN*2^f
             target = rng.choice([(hi + 1) << f, lo << f, (hi << f), ((hi + 1) << f) - 1])
